@@ -227,7 +227,7 @@ def _has_fp(e, budget=400):
     return False
 
 class Exec:
-    def __init__(s, mod, timeout_ms=20000):
+    def __init__(s, mod, timeout_ms=60000):
         s.M = mod; s.solver = z3.Solver(); s.solver.set('timeout', timeout_ms); s.queries = 0; s.solver_time = 0.0; s.accesses = 0; s.slowest = 0.0
         s.max_block_visits = 8; s.summaries = {}; s.gobj = {}; s.gaddr = {}; s.new_cap = 256
         s.fork_fp_selects = False   # fork (instead of building an ite) on a select whose condition compares IEEE values: keeps the addresses of a branch-free binary search concrete
